@@ -151,6 +151,15 @@ class KGUndefined:
     def __str__(self):
         return ":undefined"
 
+    def __reduce__(self):
+        # :undefined is tested by identity; a pickled copy (IPC, key-value store) must
+        # come back as the one marker object
+        return (_klong_undefined, ())
+
+
+def _klong_undefined():
+    return KLONG_UNDEFINED
+
 
 KLONG_UNDEFINED = KGUndefined()
 
